@@ -323,6 +323,54 @@ def api_level(ctx, n):
     return cnt
 
 
+def allow_history(ctx, n):
+    """A caller's scheme exemption belongs to that caller's renderer.  History in ONE interpreter: a converter whose caller allowed a
+    scheme prefix renders a destination (it passes, by design), then converters with the default lists render the byte-identical
+    destination: it must be blocked there, whatever was rendered before (any sharing of verdicts between renderers shows here)."""
+    import mistune
+    from mistune.renderers.html import HTMLRenderer
+    allow_sets = [["javascript:void(0)"], ["data:image/svg+xml", "file:///usr/share/doc/"], ["vbscript:", "javascript:"], ["data:"]]
+    tails = ["", ";alert(1)", "x", "/a.txt", ",<svg onload=alert(1)>", "%20", "?q=1#f"]
+    tpls = ["[x]({u})", "[x](<{u}>)", "![x]({u})", "[r]: {u}\n\n[r]", "<{u}>", "[x]({u} \"t\")", "[r]: <{u}>\n\n![r]"]
+    dtpls = [".. image:: {u}", ".. image:: p.png\n   :target: {u}", ".. figure:: {u}\n\n   c"]
+    cnt = 0
+    for _ in range(n):
+        allowed = ctx.rng.choice(allow_sets)
+        u = ctx.rng.choice(allowed) + ctx.rng.choice(tails)
+        if ctx.rng.random() < 0.3:
+            u = "".join(ch.upper() if ctx.rng.random() < 0.3 else ch for ch in u)
+        rst = ctx.rng.random() < 0.3
+        doc = ctx.rng.choice(dtpls if rst else tpls).replace("{u}", u) + "\n"
+        plugins = []
+        if rst:
+            from mistune.directives import RSTDirective, Image, Figure
+            plugins = [RSTDirective([Image(), Figure()])]
+        esc = ctx.rng.random() < 0.7
+        first = mistune.create_markdown(renderer=HTMLRenderer(escape=esc, allow_harmful_protocols=allowed), plugins=plugins)
+        k = ctx.rng.randint(1, 3)
+        try:
+            for _i in range(k):
+                first(doc)
+        except Exception:
+            continue
+        later = [("create_markdown(escape=%s)" % esc, lambda d: mistune.create_markdown(escape=esc, plugins=plugins)(d)),
+                 ("HTMLRenderer()", lambda d: mistune.create_markdown(renderer=HTMLRenderer(), plugins=plugins)(d))]
+        if not rst:
+            later += [("mistune.html", mistune.html), ("mistune.markdown", lambda d: mistune.markdown(d))]
+        name, f = ctx.rng.choice(later)
+        try:
+            out = f(doc)
+        except Exception:
+            continue
+        cnt += 1
+        _, urls = analyse(out)
+        for tag, kk, v in urls:
+            if harmful(v):
+                ctx.fail("scheme-history:%s.%s" % (tag, kk), "%s, called after a converter whose caller allowed %r had rendered the same document: %s %s=%r is a script-capable URL, from %r" % (name, allowed, tag, kk, v, doc),
+                         {"config": {"api": name, "history": "HTMLRenderer(allow_harmful_protocols=%r) rendered the document %d time(s) first" % (allowed, k)}, "doc": doc, "output": out[:400]})
+    return cnt
+
+
 def replay_known(ctx):
     for k in ctx.known:
         ex = k.get("example") or {}
@@ -353,6 +401,7 @@ def run(ctx):
     n2 = doc_level(ctx, 5000 if q else 80000, esc_cfgs + noesc)
     n2 += option_sweep(ctx, esc_cfgs)
     n2 += api_level(ctx, 150 if q else 3000)
+    n2 += allow_history(ctx, 300 if q else 6000)
     if ctx.broken and not [f for f in ctx.failures if not ctx.is_known(f["signature"])]:
         ctx.notes.append("search mode entered")
         n2 += doc_level(ctx, 60000, esc_cfgs + noesc)
